@@ -26,16 +26,18 @@ for path in conf:
     elif path == "coq/Driver.v":
         def parts(txt):
             imp = []
-            for m in re.finditer(r"From FV Require Import (.*?)\.\n", txt, re.S):
+            for m in re.finditer(r"From FV Require (?:Import )?(.*?)\.\n", txt, re.S):
                 imp += m.group(1).split()
             lines = re.findall(r"^\s+(?:if|else if) String\.eqb cmd .*$", txt, re.M)
             return imp, [re.sub(r"^\s+(?:else )?if", "", l) for l in lines]
         io, lo = parts(ours); it, lt = parts(theirs)
-        imp = io + [x for x in it if x not in io]
+        imp = [x for x in io + [x for x in it if x not in io] if x != "Base.Prelude"]
         ls = lo + [x for x in lt if x not in lo]
+        ls = [l.replace("audit math_env documented", "audit MathTable.math_env MathTable.documented") for l in ls]
         body = "".join(("  if" if i == 0 else "  else if") + l + "\n" for i, l in enumerate(ls))
-        Path(path).write_text("(* Dispatch table of the extracted model executable: one command per modelled function. *)\n"
-            "From FV Require Import " + " ".join(imp) + ".\n\nDefinition dispatch (cmd : string) (arg : sexp) : sexp :=\n" + body +
+        Path(path).write_text("(* Dispatch table of the extracted model executable: one command per modelled function.\n"
+            "   Model modules are required, not imported: every reference below is qualified. *)\n"
+            "From FV Require Import Base.Prelude.\nFrom FV Require " + " ".join(imp) + ".\n\nDefinition dispatch (cmd : string) (arg : sexp) : sexp :=\n" + body +
             '  else s_tag "unknown-command" [SAtom cmd].\n')
     elif path == "tools/gen_manifest.py":
         # both sides add CHECKS[...] blocks before NOT_YET: keep ours, append theirs' new blocks
